@@ -4,7 +4,9 @@ CHECK = {
             # field numbers / wire kinds of pb.Pin and pb.PinOptions from the generated api/pb/types.pb.go (go/ast)
             {"pkg": "extract_c08pb", "out": "lean/ClusterVerif/Gen/C08Pb.lean"},
             # every construction / mutation site of the wire record types in non-test code (go/ast), fields classified
-            {"pkg": "extract_c08prod", "out": "lean/ClusterVerif/Gen/C08Prod.lean"}],
+            {"pkg": "extract_c08prod", "out": "lean/ClusterVerif/Gen/C08Prod.lean"},
+            # the parameter tables of api/add.go (go/ast): steps of AddParamsFromQuery / ToQueryString in source order, defaults, Equals, fields
+            {"pkg": "extract_c08add", "out": "lean/ClusterVerif/Gen/C08Add.lean"}],
     "suites": [
         # real encode -> real decode of every record x format, own field-by-field dump on both sides
         suite("roundtrip", "c08", 8000, 150000, stdin=True, args=["-suite", "rt"]),
@@ -22,8 +24,9 @@ CHECK = {
                      "ClusterVerif/Gen/C08.lean", "ClusterVerif/Model/C08Wire.lean", "ClusterVerif/Lemmas/C08Wire.lean",
                      "ClusterVerif/Lemmas/C08Query.lean", "ClusterVerif/Lemmas/C08Total.lean", "ClusterVerif/Lemmas/C08Eq.lean",
                      "ClusterVerif/Model/C08Prod.lean", "ClusterVerif/Lemmas/C08Prod.lean", "ClusterVerif/Gen/C08Pb.lean",
-                     "ClusterVerif/Gen/C08Prod.lean"],
-    "rule": "roundtrip: a record type (Pin 40%, PinOptions 10%, state dump 4%, the other 20 records uniformly) x one of the formats the system "
+                     "ClusterVerif/Gen/C08Prod.lean", "ClusterVerif/Model/C08Add.lean", "ClusterVerif/Lemmas/C08Add.lean",
+                     "ClusterVerif/Gen/C08Add.lean"],
+    "rule": "roundtrip: a record type (Pin 40%, PinOptions 10%, AddParams in its query form 10%, state dump 4%, the other 20 records uniformly) x one of the formats the system "
             "uses for it x a value drawn by a reflection-based generator with field-aware pools (all pin types, depths -1/0/1/2 and odd ones, "
             "0-4 allocations (elements may be the empty peer ID), references nil / defined / pointing to cid.Undef, cid.Undef in every CID field,  0-3 origins with and without /p2p/, metadata incl. empty key/value, reference/update CIDs of both CID versions, "
             "expiry zero/unix-zero/first-second/past/future/pre-epoch with and without nanoseconds and in three time zones, names needing "
@@ -43,6 +46,8 @@ CHECK = {
         "wire-level msgpack and JSON, integer/time/CID/peer/multiaddress byte and text forms are library behaviour: modelled as identity on opaque "
         "tokens, validated by the roundtrip suite; the protobuf wire format of pb.Pin/pb.PinOptions and URL query escaping/parsing ARE modelled at the byte "
         "level (Model/C08Wire) and tied to the real code by suite wire (per-case dictionary token -> bytes, per-leaf oracle of cid.Cast/IDFromBytes/NewMultiaddrBytes)",
+        "harness/extract_c08add (go/ast over api/add.go: statements recognised from their printed text by anchored patterns, anything else is an 'unknown' step no theorem accepts); "
+        "Model/C08Add's text forms rely on core Lean's Int.repr/String.toInt? being Go's %d/Atoi on 64-bit ints and on ASCII-only lower-casing of the hash name - tied by the AddParams query cases of suite roundtrip",
         "harness/extract_c08pb (go/ast over api/pb/types.pb.go) and harness/extract_c08prod (go/ast over all non-test files: syntactic, no type checker; "
         "allow-lists modeKnownRecursive, referenceKnownDefined, fieldAssignAllowed in Model/C08Prod.lean are read judgements)",
     ],
@@ -67,7 +72,10 @@ META = {
             "transitive and never overlook a difference, for distinct pointers (not reflexive for one pointer). Byte level (round 7): the protobuf wire form of pb.Pin/pb.PinOptions (varint, zigzag, tokens, groups, "
             "UTF-8, merge semantics) with decode(encode m) = m, independence of field order, unknown-field skipping and a totality theorem (any byte string is rejected or "
             "decodes to an in-range message), URL query escaping/Encode/ParseQuery/Get for arbitrary bytes, Equals characterised exactly and proved complete, and decide-theorems "
-            "over a regenerated table of every producer site (mode/depth agreement, no Reference to cid.Undef, all shapes recognised). (L3) every run drives the real "
+            "over a regenerated table of every producer site (mode/depth agreement, no Reference to cid.Undef, all shapes recognised). Round 8: the add endpoint's query form (api/add.go) field by field at the text level of the values (%t/ParseBool, %d/Atoi for all 64-bit ints, Values.Get, defaults, layout/format validation, "
+            "CIDv0-needs-sha2-256 rule, raw-leaves default and the ORDER of the steps): ToQueryString -> AddParamsFromQuery is the identity on all accepted parameters and, with the pin options, the lossy projection with PinUpdate cleared; "
+            "refutations for an empty chunker and for a reordered raw-leaves step; decide-theorems over the regenerated parameter table (every field written, read with the same key and a matching kind, defaulted, compared by Equals except Progress; "
+            "no unrecognised statement; rule order) and equality of that table with the one the model transcribes. (L3) every run drives the real "
             "encoders and decoders on all 23 record types x formats and compares, field by field with the harness's own dumper, against the model's "
             "prediction and against the property's comparison.",
     "note": "Decoder robustness of the library decoders is search only (mutated encodings + random bytes under recover; per-type distribution in the arm histogram); "
@@ -76,5 +84,5 @@ META = {
             "K37/K38 a Reference pointing to cid.Undef is rejected by msgpack and read back as nil by JSON/protobuf, K39 zero-valued records with a required CID cannot be decoded from msgpack, K40 the empty peer ID is written and then rejected in every format, "
             "K16 msgpack nil in an address list decodes to a value that cannot be re-encoded (an error since f2e567e, no panic). "
             "K15 (JSON decoding of an invalid multiaddress panicked) is fixed by f2e567e, K14 (status filters widened by their string form) by d6bd794.",
-    "technique": "Lean 4 decide-theorems over reflection/ast-generated tables (schema, protobuf field numbers, producer sites) + theorems over hand models of the converters and a byte-level model of the protobuf and query-string wire forms + differential correspondence (byte-exact) + mutation-based decoder search",
+    "technique": "Lean 4 decide-theorems over reflection/ast-generated tables (schema, protobuf field numbers, producer sites, add-parameter steps) + theorems over hand models of the converters and a byte-level model of the protobuf and query-string wire forms + differential correspondence (byte-exact) + mutation-based decoder search",
 }
